@@ -510,6 +510,8 @@ func getServer(pkg, prefix string) (*server, error) {
 			switch s.cur.Security[scheme] {
 			case "skip":
 				return ogenerrors.ErrSkipServerSecurity
+			case "skip-wrapped":
+				return fmt.Errorf("scheme %s: %w", scheme, ogenerrors.ErrSkipServerSecurity)
 			case "reject":
 				return errors.New("rejected by script")
 			}
